@@ -42,6 +42,36 @@ example : ∃ roles, ((k! "typing.TypedDict", 9), roles) ∈ selection ∧
     (k! "typing_extensions", k! "NotRequired") ∈ possibleImports (k! "typing.TypedDict", 9) roles := by
   refine ⟨(selection.lookup (k! "typing.TypedDict", 9)).getD [], ?_, ?_⟩ <;> decide +kernel
 
+/-- kernel-checked on the regenerated table of CLASS-LEVEL IMPORT ATTRIBUTES (every attribute of every selected class — data
+model, root model, field model, type manager; as the class resolves it — whose value is an Import or a tuple of Imports, not
+only DEFAULT_IMPORTS): each name they hold exists in the target the class was selected for; the table has a row for every
+selection pair and contains what `tables_ok` judges (DEFAULT_IMPORTS). A second import tuple next to DEFAULT_IMPORTS that
+rides on the same class selection but names something newer than the selection boundary (a `typing` name of 3.13 on the
+class chosen for 3.11+) breaks this. -/
+theorem class_import_attrs_ok :
+    classImportAttrs.all (fun e => e.2.all (fun a => a.2.2.2.all (okImp e.1.2))) = true ∧
+    classImportAttrs.map (·.1) = selection.map (·.1) ∧
+    selection.all (fun e => (selectedImports e.2).all (fun i => (classAttrImports e.1).contains i)) = true := by
+  decide +kernel
+
+/-- For every model type and target version, every class-level import attribute of a selected class, every name in it:
+the target's standard library has it (or it is a third-party dependency). -/
+theorem class_level_imports_available (key : Nat × Nat) (attrs : List (Nat × Nat × Nat × List (Nat × Nat)))
+    (h : (key, attrs) ∈ classImportAttrs) (a : Nat × Nat × Nat × List (Nat × Nat)) (ha : a ∈ attrs)
+    (i : Nat × Nat) (hi : i ∈ a.2.2.2) : okImp key.2 i = true := by
+  have he := List.all_eq_true.mp class_import_attrs_ok.1 (key, attrs) h
+  exact List.all_eq_true.mp (List.all_eq_true.mp he a ha) i hi
+
+/-- non-vacuity: the TypedDict field class selected for 3.9 holds `typing_extensions.NotRequired` in such an attribute, the
+one selected for 3.11 holds `typing.NotRequired` -/
+example : (∃ attrs a, ((k! "typing.TypedDict", 9), attrs) ∈ classImportAttrs ∧ a ∈ attrs ∧
+      (k! "typing_extensions", k! "NotRequired") ∈ a.2.2.2) ∧
+    (classAttrImports (k! "typing.TypedDict", 11)).contains (k! "typing", k! "NotRequired") = true := by
+  refine ⟨⟨(classImportAttrs.lookup (k! "typing.TypedDict", 9)).getD [],
+    (((classImportAttrs.lookup (k! "typing.TypedDict", 9)).getD []).find?
+      (fun a => a.2.2.2.contains (k! "typing_extensions", k! "NotRequired"))).getD (0, 0, 0, []), ?_, ?_, ?_⟩, ?_⟩ <;>
+    decide +kernel
+
 /-- Every `IMPORT_*` constant is classified (none is `unknown`), and the standard-library ones that
 are newer than the oldest target are exactly the reviewed version-dependent ones. -/
 theorem import_constants_classified :
